@@ -508,6 +508,43 @@ def r20g(model: Model, rr: RuleResult):
                               and norm(c_.value) == src and cfg.dominates(cfg.node_for(st), cfg.node_for(c_))]
                     if claims:
                         counter = k
+    if counter is None:
+        # role-based reading of the same registry, whichever loop drives it: a probe `REG.get/setdefault((k, src.name), src)` or `REG[k, src.name]` is compared
+        # with the source itself, the slot (k, src.name) is claimed for the source, and k is what the sub-directory is named after
+        def key_counter(e):
+            if isinstance(e, ast.Tuple) and len(e.elts) == 2 and isinstance(e.elts[0], ast.Name) and norm(e.elts[1]) == f"{src}.name":
+                return e.elts[0].id
+            return None
+
+        def probe_counter(e):
+            if isinstance(e, ast.Call) and callee_tail(e) in ("get", "setdefault") and len(e.args) == 2 and norm(e.args[1]) == src:
+                return key_counter(e.args[0]), callee_tail(e) == "setdefault"
+            if isinstance(e, ast.Subscript):
+                return key_counter(e.slice), False
+            return None, False
+        probes, claims = [], []
+        for n_ in ast.walk(fi.node):
+            if isinstance(n_, ast.Compare) and len(n_.ops) == 1 and isinstance(n_.ops[0], (ast.Eq, ast.NotEq)):
+                for a_, b_ in ((n_.left, n_.comparators[0]), (n_.comparators[0], n_.left)):
+                    if norm(b_) == src:
+                        k_, claims_too = probe_counter(a_)
+                        if k_:
+                            probes.append(k_)
+                            if claims_too:
+                                claims.append(k_)
+            if isinstance(n_, ast.Assign) and len(n_.targets) == 1 and isinstance(n_.targets[0], ast.Subscript) and norm(n_.value) == src:
+                k_ = key_counter(n_.targets[0].slice)
+                if k_:
+                    claims.append(k_)
+        ks = set(probes) | set(claims)
+        if probes and claims and len(ks) == 1:
+            k = next(iter(ks))
+            # the counter takes every value 0, 1, 2, ... in turn: a while loop with += 1 from 0, or an iteration over itertools.count()
+            drives = any(isinstance(n_, ast.For) and norm(n_.target) == k and norm(n_.iter) in ("itertools.count()", "count()", "itertools.count(0)", "count(0)") for n_ in ast.walk(fi.node)) or \
+                (any(isinstance(n_, ast.AugAssign) and norm(n_.target) == k and isinstance(n_.op, ast.Add) and norm(n_.value) == "1" for n_ in ast.walk(fi.node))
+                 and any(isinstance(n_, ast.Assign) and norm(n_.targets[0]) == k and norm(n_.value) == "0" for n_ in ast.walk(fi.node)))
+            if drives:
+                counter = k
     if counter:
         rr.ok(f"slot registry: `{counter}` is advanced until ({counter}, name) is free or already owned by this source, then claimed: one slot per distinct source")
     ext = [st for st in walk_body(fi) if isinstance(st, ast.Assign) and len(st.targets) == 1 and norm(st.targets[0]) == "out_dir"
